@@ -107,38 +107,59 @@ Print Assumptions C02_copy_fault_restores.
 
 (** * MOVE, OS call by OS call
 
-    LocalFileSystem.Move is, after its read-only checks, [os.RemoveAll(dst)] when there is a
-    destination and then [os.Rename(src, dst)] ([MoveSteps.move_steps]).  Without a fault
-    the sequence is the one step of [serve]. *)
-Theorem C02_move_is_steps : forall root sb r dst ow ss n ds created sb',
+    LocalFileSystem.Move is, after its read-only checks: one [os.Rename(src, dst)] when the
+    destination is new; otherwise the old destination is set aside under a new temporary
+    name next to it, the source renamed, and the old destination removed — or renamed back
+    when the OS refuses the rename of the source ([MoveSteps.move_steps]; repair of finding
+    move-rename-fault).  [serve] takes all that as one step. *)
+
+(** Whenever the OS refuses the rename of the source (EPERM / EACCES on the source's
+    directory, EXDEV, EBUSY), the tree afterwards is EQUAL to the tree before, the old
+    destination included — for every tree with listings in OS order, every source, every
+    destination and every temporary name that is new in the destination's collection. *)
+Theorem C02_move_fault_restores : forall s sp dp tmp,
+  sorted_otree s = true -> dp <> [] -> geto s dp <> None ->
+  geto s (parent dp ++ [tmp]) = None ->
+  move_steps s sp dp (parent dp ++ [tmp]) true = (s, false).
+Proof. exact move_fault_restores_sibling. Qed.
+Print Assumptions C02_move_fault_restores.
+
+(** The same for any temporary path that is new, unrelated to the destination and in an
+    existing collection — and for a new destination (no temporary name is used). *)
+Theorem C02_move_fault_restores_general : forall s sp dp tmpp,
+  sorted_otree s = true -> dp <> [] -> tmpp <> [] ->
+  geto s tmpp = None ->
+  is_prefix dp tmpp = false -> is_prefix tmpp dp = false ->
+  is_dir (geto s (parent tmpp)) = true ->
+  move_steps s sp dp tmpp true = (s, false).
+Proof. exact move_fault_restores. Qed.
+Print Assumptions C02_move_fault_restores_general.
+
+(** Without a fault, onto a new destination, the sequence is the single step of [serve]. *)
+Theorem C02_move_is_steps_new : forall root sb r dst ow ss n ds sb' tmpp,
+  copy_move_checks root sb (rpath r) dst ow = GOk (ss, n, ds, true) ->
+  seto (remo (remo sb (hp root ds)) (hp root ss)) (hp root ds) n = Some sb' ->
+  move_steps sb (hp root ss) (hp root ds) tmpp false = (Some sb', true) /\
+  fst (do_move root sb r dst ow) = Some sb'.
+Proof. exact move_is_steps_new. Qed.
+Print Assumptions C02_move_is_steps_new.
+
+(** Before the repair Move was os.RemoveAll(dst); os.Rename(src, dst)
+    ([MoveSteps.move_steps_old]): the single step of [serve] when nothing failed, but the
+    property's statement was false of it under the fault — the checks pass, Move reports
+    failure, a stored resource is gone.  The rfault stage replays this on the real handler. *)
+Theorem C02_move_old_is_steps : forall root sb r dst ow ss n ds created sb',
   copy_move_checks root sb (rpath r) dst ow = GOk (ss, n, ds, created) ->
   seto (remo (remo sb (hp root ds)) (hp root ss)) (hp root ds) n = Some sb' ->
-  move_steps sb (hp root ss) (hp root ds) false = (Some sb', true) /\
+  move_steps_old sb (hp root ss) (hp root ds) false = (Some sb', true) /\
   fst (do_move root sb r dst ow) = Some sb'.
-Proof. exact move_is_steps. Qed.
-Print Assumptions C02_move_is_steps.
+Proof. exact move_old_is_steps. Qed.
+Print Assumptions C02_move_old_is_steps.
 
-(** A rename the OS refuses (EPERM / EACCES on the source's directory, EXDEV, EBUSY) onto
-    a name that is new leaves the EQUAL tree. *)
-Theorem C02_move_fault_new_destination : forall s sp dp,
-  geto s dp = None -> move_steps s sp dp true = (s, false).
-Proof. exact move_fault_new_destination. Qed.
-Print Assumptions C02_move_fault_new_destination.
-
-(** Onto an existing destination it leaves the tree without that destination: exactly
-    what the rfault stage observes in the real handler. *)
-Theorem C02_move_fault_existing_destination : forall s sp dp,
-  exists_ (geto s dp) = true -> move_steps s sp dp true = (remo s dp, false).
-Proof. exact move_fault_existing_destination. Qed.
-Print Assumptions C02_move_fault_existing_destination.
-
-(** So the property's statement is false of the faithful model of that sequence under
-    that fault (known finding C02 move-rename-fault; replayed on the real handler by the
-    rfault stage): the checks pass, Move reports failure, a stored resource is gone. *)
-Theorem C02_move_rename_fault_refuted :
+Theorem C02_move_old_rename_fault_refuted :
   exists s sp dp,
     geto s sp <> None /\ geto s dp <> None /\ is_prefix sp dp = false /\ is_prefix dp sp = false /\
     is_dir (geto s (parent dp)) = true /\
-    snd (move_steps s sp dp true) = false /\ fst (move_steps s sp dp true) <> s.
-Proof. exact move_rename_fault_loses_destination. Qed.
-Print Assumptions C02_move_rename_fault_refuted.
+    snd (move_steps_old s sp dp true) = false /\ fst (move_steps_old s sp dp true) <> s.
+Proof. exact move_old_rename_fault_loses_destination. Qed.
+Print Assumptions C02_move_old_rename_fault_refuted.
